@@ -387,6 +387,9 @@ recorded:
 	}
 	// operations per connection (index = connection id - 1), each with its command and recorded reply
 	ops := make([][]any, len(ids))
+	for i := range ops {
+		ops[i] = []any{}
+	}
 	for _, e := range events {
 		if e.E == "inv" {
 			ops[e.C-1] = append(ops[e.C-1], J{"cmd": e.Cmd, "r": replies[[2]int{e.C, e.I}]})
